@@ -278,9 +278,18 @@ pub fn run(ctx: &Ctx) -> Result<Run, String> {
     let depth = ctx.tier.pick(3, 5);
     let g = graph::bfs(&C03 { depth }, ctx.threads);
     let ok = g.stats.outcomes.get("auth:ok").copied().unwrap_or(0);
+    let mut g = g;
+    {
+        use super::inst::{self, IOp};
+        let alphabet = [IOp::Get { who: 0, prf: false, silent: false }, IOp::Get { who: 2, prf: false, silent: false }, IOp::Get { who: 3, prf: false, silent: false }, IOp::Get { who: 4, prf: false, silent: false }, IOp::Make { rk: true, prf: false }, IOp::Make { rk: false, prf: false }, IOp::Info, IOp::Cancelled(0), IOp::Cancelled(1)];
+        let st = inst::sweep(&alphabet, ctx.tier.pick(3, 4), &[0, 1, 2], ctx.threads, "instance");
+        g.transitions += st.evaluations;
+        g.stats.count("instance_differential_histories", st.evaluations);
+        g.stats.merge(st);
+    }
     let mut run = Run::from_stats(
         "model_checking",
-        "explicit-state BFS over histories: register(rp in 2, user in 2) and authenticate(origin/RP in 4 incl. a sub-domain origin of the same RP and an RP without credentials, allow list in {absent, empty, [own], [unknown, own], [unknown], [credential of another RP], [unknown id with an unknown credential type]}, userVerification in {required, preferred, discouraged with and without the user verifying anyway}, client-data mode in 3) plus 10 challenges on two base assertions, from the empty and two seeded stores, on a real Client over the contract store; every assertion is verified by an independent relying party (ECDSA verify under the key derived from the stored scalar, client data, rpIdHash, flags, user handle). States are deduplicated on (RP, user handle, counter) per record in creation order; every transition is a distinct non-trivial real ceremony",
+        "explicit-state BFS over histories: register(rp in 2, user in 2) and authenticate(origin/RP in 4 incl. a sub-domain origin of the same RP and an RP without credentials, allow list in {absent, empty, [own], [unknown, own], [unknown], [credential of another RP], [unknown id with an unknown credential type]}, userVerification in {required, preferred, discouraged with and without the user verifying anyway}, client-data mode in 3) plus 10 challenges on two base assertions, from the empty and two seeded stores, on a real Client over the contract store; every assertion is verified by an independent relying party (ECDSA verify under the key derived from the stored scalar, client data, rpIdHash, flags, user handle). Plus the instance differential: the complete tree of histories to depth 3 (thorough 4) over {assertion with the seeded / no / an unknown / the first created credential, registration rk on/off, getInfo, a registration and an assertion dropped while the user step is pending} on ONE long-lived Authenticator against fresh Authenticators per operation, on the contract store, Arc<Mutex<MemoryStore>> and Arc<Mutex<Option<Passkey>>> (results and final store must agree). States are deduplicated on (RP, user handle, counter) per record in creation order; every transition is a distinct non-trivial real ceremony",
         true,
         g.stats,
     );
@@ -292,6 +301,9 @@ pub fn run(ctx: &Ctx) -> Result<Run, String> {
 }
 
 pub fn replay(_ctx: &Ctx, case: &Value) -> Result<Vec<Finding>, String> {
+    if let Some(fs) = super::inst::replay(case, "instance") {
+        return Ok(fs);
+    }
     let init = case["init"].as_u64().unwrap_or(0) as usize;
     let hist: Vec<Act> = serde_json::from_value(case["hist"].clone()).map_err(|e| format!("bad C03 case: {e}"))?;
     let store = init_store(init);
